@@ -6,6 +6,7 @@ CONSTANTS
   RngGuard = "readlock"
   StreamGuard = "mutex"
   OldMutated = FALSE
+  DefaultShared = "none"
   Mutant = "none"
 INVARIANTS TypeOK NoRace
 CHECK_DEADLOCK FALSE
